@@ -401,6 +401,11 @@ def d5_cached_size(ctx, rule_id="D5", unconditional=False):
                         w = expand_name(du, n, st)
                         if w is not n:
                             work.append(w)
+            # the cached size re-measured inside open() itself, before the use, is a fresh measurement of the file being mapped
+            fresh = [n for n in walk_function(fo.node) if isinstance(n, ast.Assign) and any(loc_name(t) == "self.nbytes" for t in n.targets)
+                     and "self.file_bin" in src(n.value) and "stat()" in src(n.value) and "st_size" in src(n.value)]
+            if "self.nbytes" in deps and fresh and any(du.cfg.must_pass([du.cfg.node_for(n)], du.cfg.node_for(st)) for n in fresh):
+                deps.discard("self.nbytes")
             uses.append((st, deps))
     if not uses:
         raise AnchorMissing("Reader.open: duration rewrite not found")
